@@ -997,6 +997,32 @@ class ReorientationSegment(DataSegment):
             return
 
 
+def _subscript_to_raw(segment: DataSegment, subscript: Tuple[slice, ...]) -> Tuple[slice, ...]:
+    """
+    The raw subscript of `segment` which holds what the normalized formatted
+    subscript selects. For a subset of a subset this passes through the parent,
+    because a SubsetSegment has no format function of its own.
+    """
+
+    if isinstance(segment, SubsetSegment):
+        return segment._from_parent_subscript(
+            _subscript_to_raw(segment.parent, segment.get_parent_formatted_subscript(subscript)),
+            segment._original_raw_indices, segment.raw_subset_definition)
+    return segment.format_function.transform_formatted_slice(subscript)
+
+
+def _subscript_to_formatted(segment: DataSegment, subscript: Tuple[slice, ...]) -> Tuple[slice, ...]:
+    """
+    The opposite direction of :func:`_subscript_to_raw`.
+    """
+
+    if isinstance(segment, SubsetSegment):
+        return segment._from_parent_subscript(
+            _subscript_to_formatted(segment.parent, segment.get_parent_raw_subscript(subscript)),
+            segment._original_formatted_indices, segment.formatted_subset_definition)
+    return segment.format_function.transform_raw_slice(subscript)
+
+
 class SubsetSegment(DataSegment):
     """
     Define a subset of a given DataSegment, with formatting handled by the
@@ -1114,10 +1140,10 @@ class SubsetSegment(DataSegment):
         coordinate_basis = coordinate_basis.strip().lower()
         if coordinate_basis == 'raw':
             raw_def = self.parent.verify_raw_subscript(subset_definition)
-            form_def = self.parent.format_function.transform_raw_slice(raw_def)
+            form_def = _subscript_to_formatted(self.parent, raw_def)
         elif coordinate_basis == 'formatted':
             form_def = self.parent.verify_formatted_subscript(subset_definition)
-            raw_def = self.parent.format_function.transform_formatted_slice(form_def)
+            raw_def = _subscript_to_raw(self.parent, form_def)
         else:
             raise ValueError('Got unexpected coordinate basis `{}`'.format(coordinate_basis))
 
@@ -1195,6 +1221,26 @@ class SubsetSegment(DataSegment):
                 elif stop > full_size:
                     stop = full_size
                 out.append(slice(start, stop, step))
+        return tuple(out)
+
+    @staticmethod
+    def _from_parent_subscript(
+            parent_subscript: Tuple[slice, ...],
+            use_indices: Tuple[int, ...],
+            subset_definition: Tuple[slice, ...]) -> Tuple[slice, ...]:
+        """
+        The opposite of :func:`_get_parent_subscript`: express a normalized
+        parent subscript, which selects inside the subset, in subset coordinates.
+        """
+
+        out = []
+        for out_index, slice_def, part_def in zip(use_indices, subset_definition, parent_subscript):
+            if out_index == -1:
+                continue
+            start = (part_def.start - slice_def.start)//slice_def.step
+            step = part_def.step//slice_def.step
+            stop = start + step*get_slice_result_size(part_def)
+            out.append(slice(start, None if stop < 0 else stop, step))
         return tuple(out)
 
     def get_parent_raw_subscript(
@@ -1345,7 +1391,7 @@ class SubsetSegment(DataSegment):
         _, parent_shape = get_subscript_result_size(parent_subscript, self.parent.formatted_shape)
         self.parent.write(numpy.reshape(data, parent_shape), subscript=parent_subscript, **kwargs)
         # account for this in terms of raw pixels
-        raw_subscript = self.parent.format_function.transform_formatted_slice(parent_subscript)
+        raw_subscript = _subscript_to_raw(self.parent, parent_subscript)
         _, raw_shape = get_subscript_result_size(raw_subscript, self.parent.raw_shape)
         self._update_pixels_written(int(numpy.prod(raw_shape)))
 
